@@ -65,3 +65,9 @@ Theorem C09_append_textgrid_tiers A B only g' :
               else names A ++ filter (fun n => negb (name_in n (names A))) (names B)).
 Proof. exact (tg_append_names A B only g'). Qed.
 Print Assumptions C09_append_textgrid_tiers.
+
+(* ... and the result has unique tier names again *)
+Theorem C09_append_textgrid_names_unique A B only g' :
+  NoDup (names A) -> NoDup (names B) -> tg_append A B only = Ok g' -> NoDup (names g').
+Proof. exact (tg_append_nodup A B only g'). Qed.
+Print Assumptions C09_append_textgrid_names_unique.
